@@ -286,3 +286,38 @@ def c15_4(R):
             pr = sorted(set(x for p in problems for x in p))
             R.fail([TRC + m] + pr, "with congestion tracing enabled, CongestionController::%s reaches the inner controller only conditionally / altered (%s): the inner window state no longer follows what the "
                    "dispatcher reported, so the bounds established for Cubic (C15.1-3, C05.1) do not hold for the traced socket" % (m, ", ".join(pr)), where=cands[0][1].where(), instance="decorator-forwards")
+
+
+@rule("C15.5", ["C15", "C06"], ["E2", "E4"], "fast recovery is entered with the threshold of THIS loss",
+      "Recovery::on_ack, on the third duplicate: congestion_controller.on_enter_recovery(now) cuts the window and sets ssthresh = max(0.7 cwnd, 2) (C15.2); the recovery window kept in "
+      "Recovering.cwnd is congestion_controller.sshthresh() read AFTER that call (dominated by it), and on exit on_recovered(.., rec.cwnd) writes that value back. Read before the call it is the "
+      "threshold of the previous epoch - infinite on the first loss - so the window during recovery is unbounded and the loss leaves no lasting reduction.")
+def c15_5(R):
+    b = R.body("recovery::Recovery::on_ack")
+    enters = [t for t in b.calls() if call_matches(t, ("CongestionController::on_enter_recovery",))]
+    R.require(len(enters) == 1, "on_enter_recovery call in Recovery::on_ack")
+    ent = enters[0]
+    dom = b.dominators()
+    aggs = [s for s in b.stmts() if s.rv.kind == "agg" and s.rv.j.get("adt") == "recovery::Recovering"]
+    R.floor("Recovering{..} constructions in on_ack", len(aggs), 1)
+    for s in aggs:
+        names = s.rv.j["fields"]
+        v = trace(b, s.rv.ops[names.index("cwnd")])
+        if v.kind == "call" and call_matches(v.root[1], ("CongestionController::sshthresh",)):
+            rd = v.root[1]
+            if ent.bb in dom.get(rd.bb, ()) and ent.bb != rd.bb or (ent.bb == rd.bb and ent.idx < rd.idx):
+                R.ok("recovery-window=new-ssthresh", b.name, "Recovering.cwnd = sshthresh() read after on_enter_recovery")
+            else:
+                R.fail([b.name, "sshthresh-read-before(on_enter_recovery)"], "the recovery window is taken from sshthresh() before on_enter_recovery updated it: it is the previous epoch's threshold (infinite on the "
+                       "first loss) - sending in recovery is not limited and on_recovered writes the stale value back", where=rd.where(), instance="recovery-window=new-ssthresh")
+        else:
+            R.fail([b.name, "Recovering.cwnd-source", v.describe()], "the recovery window is no longer the controller's slow-start threshold", where=s.where(), instance="recovery-window=new-ssthresh")
+    # ... and that is the value handed back as ssthresh on exit
+    rec = [t for t in b.calls() if call_matches(t, ("CongestionController::on_recovered",))]
+    R.floor("on_recovered calls in Recovery::on_ack", len(rec), 1)
+    for t in rec:
+        a = trace(b, t.args[2])
+        if a.last_field == "Recovering.cwnd":
+            R.ok("ssthresh-restored-from-recovery-window", b.name, "on_recovered(_, rec.cwnd)")
+        else:
+            R.fail([b.name, "on_recovered-ssthresh", a.describe()], "on exit from recovery ssthresh is no longer restored from the window recorded at entry", where=t.where(), instance="ssthresh-restored-from-recovery-window")
